@@ -246,6 +246,29 @@ theorem combine_arrays_append (first : Res) (rest : List Res) :
     (combine false first rest).arrays = first.arrays.map fun p => (p.1, catArr rest p.1 p.2) := by
   simp only [combine, foldl_addArrays_append, Bool.false_eq_true, if_false, catArr]
 
+/-! ### inversion of `mergeResults` -/
+
+/-- what `mergeResults` does on two or more results -/
+theorem merge_eq (first second : Res) (rest : List Res) :
+    mergeResults (first :: second :: rest) =
+      if keysOk (first :: second :: rest) then
+        .ok (combine (average (first :: second :: rest)) first (second :: rest))
+      else .error .keyMismatch := by
+  simp only [mergeResults]
+  cases keysOk (first :: second :: rest) <;> simp
+
+/-- a merge of two or more results that succeeds: keys agree, the result is `combine` -/
+theorem merge_ok_inv (first second : Res) (rest : List Res) (m : Res)
+    (h : mergeResults (first :: second :: rest) = .ok m) :
+    (∀ x ∈ first :: second :: rest, ∀ y ∈ first :: second :: rest, SameKeys x y) ∧
+    m = combine (average (first :: second :: rest)) first (second :: rest) := by
+  rw [merge_eq] at h
+  cases hk : keysOk (first :: second :: rest) with
+  | false => simp [hk] at h
+  | true =>
+    simp only [hk, if_true, Except.ok.injEq] at h
+    exact ⟨(keysOk_iff _).mp hk, h.symm⟩
+
 /-! ### labels -/
 
 /-- `lastSeg` is `os.path.basename`: no `/` in it, and the path is `prefix ++ lastSeg` where the
